@@ -507,6 +507,18 @@ func (ev *Evaluator) Eval(e Expr, env *Env) Val {
 		if lo.C == nil || hi.C == nil {
 			ev.fail("quantifier bounds must be constant")
 		}
+		if x.Sum {
+			acc := ev.th.SpecLit(big.NewInt(0))
+			for i := new(big.Int).Set(lo.C); i.Cmp(hi.C) <= 0; i.Add(i, big.NewInt(1)) {
+				t := ev.specOf(ev.Eval(x.Body, env.bind(x.Var, ev.num(new(big.Int).Set(i)))))
+				if acc.Sort.K == SBV {
+					acc = ev.th.SpecAdd(acc, t)
+				} else {
+					acc = mkAdd(acc, t)
+				}
+			}
+			return Leaf{T: acc}
+		}
 		var parts []T
 		for i := new(big.Int).Set(lo.C); i.Cmp(hi.C) <= 0; i.Add(i, big.NewInt(1)) {
 			parts = append(parts, ev.boolOf(ev.Eval(x.Body, env.bind(x.Var, ev.num(new(big.Int).Set(i))))))
@@ -651,6 +663,18 @@ func (ev *Evaluator) call(x *ECall, env *Env) Val {
 		v := ev.Eval(x.Args[0], env)
 		e := ev.specOf(ev.Eval(x.Args[1], env))
 		return Leaf{T: ev.rsApply(ev.specOf(v), e)}
+	}
+	if (x.Fn == "p10" || x.Fn == "pow2") && len(x.Args) == 1 && ev.th.Mode() == "int" {
+		if a := ev.specOf(ev.Eval(x.Args[0], env)); a.C != nil && a.C.Sign() >= 0 && a.C.Cmp(big.NewInt(128)) <= 0 {
+			base := int64(10)
+			if x.Fn == "pow2" {
+				base = 2
+			}
+			if x.Fn == "p10" && a.C.Cmp(big.NewInt(78)) > 0 {
+				return ev.num(new(big.Int).Exp(big.NewInt(10), big.NewInt(78), nil))
+			}
+			return ev.num(new(big.Int).Exp(big.NewInt(base), a.C, nil))
+		}
 	}
 	sig, ok := ev.sigs[x.Fn]
 	if !ok {
